@@ -841,6 +841,22 @@ func vGenBook(t *rapid.T, o vBookOpts, label string) (vDoc, vBookInfo) {
 			vRec{Head: "huge~parent", HL: vLayout{EOL: "\n"}, Lines: []vLine{{Kind: vkEntry, Name: "tiny~sub", Num: huge, L: plain}}})
 		nrec = len(recs)
 	}
+	// one book in 8 holds a sub-recipe that two (or three) recipes take with shares that differ in the eighth
+	// significant digit or later (0.33333333 / 0.33333334, 16777216 / 16777217): different shares, different amounts
+	if !o.NoTwins && o.MaxDepth >= 2 && len(basics) > 0 && rapid.IntRange(0, 7).Draw(t, label+".shares") == 0 {
+		e := basics[rapid.IntRange(0, len(basics)-1).Draw(t, label+".shareel")]
+		sh := [][]string{{"0.33333333", "0.33333334"}, {"16777216", "16777217", "16777218"}, {"1.0000001", "1.00000011"}, {"0.1", "0.10000000149"}, {"1234567.8", "1234567.9"}}[rapid.IntRange(0, 4).Draw(t, label+".sharev")]
+		amount := []string{"1000000", "1", "3", "250000"}[rapid.IntRange(0, 3).Draw(t, label+".shareamount")]
+		if o.Exact {
+			sh, amount = []string{"16777216", "16777217", "16777218"}, []string{"1", "2", "4"}[rapid.IntRange(0, 2).Draw(t, label+".shareamountx")]
+		}
+		plain := vLayout{Indent: "  ", Sep: ": ", EOL: "\n"}
+		recs = append(recs, vRec{Head: "share~sub", HL: vLayout{EOL: "\n"}, Lines: []vLine{{Kind: vkEntry, Name: e, Num: amount, L: plain}}})
+		for i, q := range sh {
+			recs = append(recs, vRec{Head: fmt.Sprintf("share~user%d", i), HL: vLayout{EOL: "\n"}, Lines: []vLine{{Kind: vkEntry, Name: "share~sub", Num: q, L: plain}}})
+		}
+		nrec = len(recs)
+	}
 	// declaration order: random permutation
 	if nrec > 1 {
 		perm := rapid.Permutation(vIota(nrec)).Draw(t, label+".perm")
